@@ -915,12 +915,18 @@ class FakedWBEMConnection(WBEMConnection):
             namespace = namespace or self.default_namespace
             self._mainprovider.validate_namespace(namespace)
 
-            if isinstance(objects, list):
-                for obj in objects:
-                    self.add_cimobjects(obj, namespace=namespace)
+            def flattened(objs):
+                """Yield the objects of a (possibly nested) list in order."""
+                if isinstance(objs, list):
+                    for item in objs:
+                        yield from flattened(item)
+                else:
+                    yield objs
 
-            else:
-                obj = objects
+            # Lists are flattened instead of being processed by nested calls
+            # of this method, because the time statistics of one name cannot
+            # be nested.
+            for obj in flattened(objects):
                 if isinstance(obj, CIMClass):
                     cc = obj.copy()
                     if cc.superclass:
